@@ -8,7 +8,7 @@
    the named premise [line_reads]. *)
 From Coq Require Import List ZArith Bool Lia.
 From RtoscV Require Import Pretty.Tok Pretty.FloatFmt Pretty.PrintModel Pretty.ScanModel
-  Pretty.PrettyProofs Pretty.RangeProofs Pretty.RunProofs Pretty.ListProofs.
+  Pretty.PrettyProofs Pretty.RangeProofs Pretty.RunProofs Pretty.ListProofs Pretty.ArrayProofs.
 From RtoscV Require Import Save.PrintStage.
 From RtoscV Require Import Save.TopoModel Save.SaveModel.
 Import ListNotations.
@@ -172,6 +172,134 @@ Proof.
     destruct (l_vals l) as [|x xs]; [discriminate|]. cbn [map] in E. inversion E as [[E1 E2]].
     destruct x as [z|z|b|[|]|s0|s0]; discriminate. }
   destruct slots as [|[] ?]; try contradiction; rewrite Hex, map_opt_av; destruct l; cbn in *; subst; reflexivity.
+Qed.
+
+(* ---- stage 6: the lines of every parameter kind ------------------------------------------------
+   A scalar port's line carries ONE value.  Fewer than five values are never compressed and no
+   range tail can follow, so C10's token theorems apply as they are: *)
+Definition good_scalar1 (x : scalar) : Prop :=
+  match x with
+  | SaveModel.VI z => - 2 ^ 31 <= z < 2 ^ 31
+  | SaveModel.VC z => 0 <= z <= 255
+  | SaveModel.VF b => 0 <= b < 2 ^ 32 /\ f32_finite b = true          (* no NaN, no infinity; both zeroes *)
+  | SaveModel.VT _ => True
+  | SaveModel.VS s => nonul s
+  | SaveModel.VSym s => sym_plain s = true \/ nonul s                  (* printed bare / in quotes *)
+  end.
+(* the elements of a "name#N" port's line, "[e1 e2 ...]": runs are compressed, so C10's list-level
+   conditions apply - no '.' in a quoted symbol (finding ellipsis-in-string-before-range) - and for the
+   line as a whole: +0.0 and -0.0 not both (finding signed-zero-run), one element type *)
+Definition good_elem (x : scalar) : Prop :=
+  match x with
+  | SaveModel.VI z => - 2 ^ 31 <= z < 2 ^ 31
+  | SaveModel.VC z => 0 <= z <= 255 /\ z <> 46
+  | SaveModel.VF b => 0 <= b < 2 ^ 32 /\ f32_finite b = true
+  | SaveModel.VT _ => True
+  | SaveModel.VS s => nonul s /\ nodot s
+  | SaveModel.VSym s => sym_plain s = true \/ (nonul s /\ nodot s)
+  end.
+
+Lemma av_of_good1 : forall x, lossless o = true -> good_scalar1 x -> good1 o (av_of x).
+Proof.
+  intros [z|z|b|[|]|s|s] Hl H; cbn [good_scalar1 av_of] in *.
+  - left. exact H.
+  - left. exact H.
+  - right. right. split; [exact Hl | exact H].
+  - left. exact I.
+  - left. exact I.
+  - left. exact H.
+  - destruct (sym_plain s) eqn:E; [right; left; exact E|].
+    destruct H as [H|H]; [discriminate|]. left. split; [exact H | exact E].
+Qed.
+
+Lemma av_of_goodv : forall x, lossless o = true -> good_elem x -> goodv o (av_of x).
+Proof.
+  intros [z|z|b|[|]|s|s] Hl H; cbn [good_elem av_of] in *.
+  - left. cbn. unfold small_k, good_k. split; [exact H | exact I].
+  - left. cbn. unfold small_k, good_k. exact H.
+  - right. right. split; [exact Hl | exact H].
+  - left. exact I.
+  - left. exact I.
+  - left. exact H.
+  - destruct (sym_plain s) eqn:E; [right; left; exact E|].
+    destruct H as [H|[H1 H2]]; [discriminate|]. left. cbn. split; [exact H1|]. split; [exact E | exact H2].
+Qed.
+
+Definition good_line (l : line) : Prop :=
+  good_addr (l_path l) /\
+  if l_array l
+  then l_vals l <> [] /\ Forall good_elem (l_vals l) /\ nozmix (map av_of (l_vals l)) /\
+       homog (map av_of (l_vals l)) /\ Z.of_nat (length (l_vals l)) + 1 < 2 ^ 31
+  else exists x, l_vals l = [x] /\ good_scalar1 x.
+
+(* the printer's model is total on one-value lines: every value of the abstract application
+   has a text, and a single value is never handed to the range conversion *)
+Lemma print_scalar_av_of : forall x cols, exists t w c, print_scalar o (av_of x) cols = Some (t, w, c).
+Proof.
+  intros [z|z|b|[|]|s|s] cols; cbn [av_of print_scalar]; try (eexists _, _, _; reflexivity).
+  - destruct (print_string o false s cols) as [t c]. eexists _, _, _; reflexivity.
+  - destruct (print_string o true s cols) as [t c]. eexists _, _, _; reflexivity.
+Qed.
+Lemma scalar_av_of : forall x, PrettyProofs.scalar (av_of x).
+Proof. intros [z|z|b|[|]|s|s]; exact I. Qed.
+
+Theorem scalar_line_prints : forall l x, l_array l = false -> l_vals l = [x] ->
+  exists t w, print_message o (l_path l) (line_avs l) 0 = Some (t, w).
+Proof.
+  intros l x Ha Hv. unfold line_avs. rewrite Ha, Hv. cbn [map].
+  pose proof (scalar_av_of x) as Hs. destruct (print_scalar_av_of x (0 + (len (l_path l) + 1))) as (t & w & c & E).
+  unfold print_message. cbn [length]. cbn [print_vals_loop].
+  change (Z.of_nat 1 <=? 0) with false. cbv iota.
+  replace (convert_to_range o [av_of x] (Z.of_nat 1 - 0)) with CNo by reflexivity.
+  rewrite (print_arg_val_top_scalar o (av_of x) [] _ None true Hs), (print_arg_val_scalar o (av_of x) [] _ None Hs).
+  rewrite E. rewrite (next_arg_offset_scalar (av_of x) [] Hs).
+  destruct (if breaks_itself (av_type (av_of x)) then _ else _) as [[brk_ cols2] awtl2].
+  rewrite orb_false_r, andb_false_r.
+  change (0 + 1 <? Z.of_nat 1) with false. cbv iota.
+  change (Z.of_nat 1 <=? 0 + 1) with true. cbv iota.
+  eexists _, _. reflexivity.
+Qed.
+
+(* C12_good_line_reads: a line of the class reads back whatever follows it; for an array line given
+   that the printer's model returns (scalar lines: scalar_line_prints) *)
+Theorem good_line_reads : forall l,
+  lossless o = true -> good_line l ->
+  (l_array l = true -> exists t w, print_message o (l_path l) (line_avs l) 0 = Some (t, w)) ->
+  line_reads l.
+Proof.
+  intros l Hl [Haddr Hg] Hpr. destruct (l_array l) eqn:Harr.
+  - destruct Hg as (Hne & Hel & Hnz & Hh & Hlen). destruct (Hpr eq_refl) as (t & w & Hp).
+    assert (Eav : line_avs l = VArr (match map av_of (l_vals l) with e :: _ => av_type e | [] => 105 end)
+                                    (Z.of_nat (length (map av_of (l_vals l)))) :: map av_of (l_vals l))
+      by (unfold line_avs; rewrite Harr; reflexivity).
+    rewrite Eav in Hp.
+    assert (Hgv : Forall (goodv o) (map av_of (l_vals l))).
+    { apply Forall_forall. intros v Hv. apply in_map_iff in Hv as (x & <- & Hx).
+      apply av_of_goodv; [exact Hl|]. exact (proj1 (Forall_forall _ _) Hel x Hx). }
+    assert (Hne' : map av_of (l_vals l) <> []) by (destruct (l_vals l); [congruence | discriminate]).
+    assert (Hlen' : Z.of_nat (length (map av_of (l_vals l))) + 1 < 2 ^ 31) by (rewrite map_length; exact Hlen).
+    destruct (array_message_reads_tl_nz dec2f dec2d o _ _ _ t w Haddr Hgv Hnz Hh Hne' Hlen' Hp)
+      as (ty' & slots & Hex & [sfx Hsfx] & Hrd).
+    exists t, w, (VArr ty' (Z.of_nat (length slots)) :: slots). rewrite Eav.
+    split; [exact Hp|].
+    split; [destruct Haddr as [[ar Ea] _]; rewrite Hsfx, Ea; eexists; reflexivity|].
+    split.
+    + unfold line_of_slots. rewrite Hex, map_opt_av. destruct l; cbn in *; subst; reflexivity.
+    + intros tl Htl. replace (Z.of_nat (length (VArr ty' (Z.of_nat (length slots)) :: slots)))
+        with (1 + Z.of_nat (length slots)) by (cbn [length]; lia).
+      exact (Hrd tl Htl).
+  - destruct Hg as (x & Hv & Hx).
+    destruct (scalar_line_prints l x Harr Hv) as (t & w & Hp).
+    assert (Eav : line_avs l = [av_of x]) by (unfold line_avs; rewrite Harr, Hv; reflexivity).
+    rewrite Eav in Hp.
+    destruct (one_message_reads_tl dec2f dec2d o _ _ t w Haddr (av_of_good1 x Hl Hx) Hp) as ([sfx Hsfx] & Hrd).
+    exists t, w, [av_of x]. rewrite Eav. split; [exact Hp|].
+    split; [destruct Haddr as [[ar Ea] _]; rewrite Hsfx, Ea; eexists; reflexivity|].
+    split; [|exact Hrd].
+    unfold line_of_slots.
+    assert (Hexp : expand [av_of x] = Some [av_of x]) by (destruct x as [z|z|b|[|]|s|s]; reflexivity).
+    destruct x as [z|z|b|[|]|s|s]; cbn [av_of] in *; rewrite Hexp; cbn [map_opt' scalar_of];
+      destruct l; cbn in *; subst; reflexivity.
 Qed.
 
 (* ---- lines do not interfere ----------------------------------------------------------------- *)
